@@ -6,6 +6,14 @@
 // direction p perpendicular to the other operand, j = 1..16 (formed in T arithmetic, so for large j the pair
 // degenerates into an exactly antipodal one -- counted separately).
 //
+// Added (audit2 S2): the nearly PARALLEL families  to = from + 10^-j * p  (both orders), j = 1..16, p every lattice direction
+// perpendicular to from, and the integer pairs (k,0,0)~(k,1,0) (all axis permutations and signs) with cosine 0.894 (k=2),
+// 0.990 (k=7), 0.999 (k=22), 0.99995 (k=100): class ".nearly-parallel" (for large j the pair degenerates into an exactly
+// parallel one -- counted separately). Added (audit2 S4): to = -from + delta*p with delta = m * 8 eps |from|/|p|, m in
+// {1/2, 3/4, 1-2^-10, 1-2^-20, 1, 1+2^-20, 1+2^-10, 5/4, 2, 4}: |f0+t0|^2 just below, at and just above the 64 eps^2 switch of
+// setRotation between the two-step construction and the antipodal fall-back (exactly so for axis-aligned from and p);
+// both sides must carry from^ onto to^ to the same 32 eps: class ".at-antipodal-switch".
+//
 // Demanded (property statement + the comment block of setRotation): the result is a unit quaternion; the rotation
 // it describes carries from/|from| onto to/|to|; for non-parallel pairs the axis is along from x to.
 // The reference directions are computed in long double from the T-valued operands, and the rotation is applied in
@@ -24,6 +32,8 @@ using vf::R;
 
 struct Tally
 {
+    long long near_par = 0, near_par_degenerated = 0, cos_family = 0, sw_below = 0, sw_at = 0, sw_above = 0;
+    double    w_carry_par = 0;
     long long states = 0, trans = 0, par = 0, le90 = 0, gt90 = 0, anti = 0, near_anti = 0, near_degenerated = 0, scaled_small = 0, scaled_big = 0, anti_unequal = 0;
     double w_carry = 0, w_unit = 0, w_axis = 0, w_carry_near = 0;
 };
@@ -168,6 +178,71 @@ template <class T> void run (Tally& tl)
                     mx (tl.w_carry_near, w);
                 }
         }
+    // nearly parallel families (audit2 S2)
+    for (auto& f : dirs)
+        for (auto& p : dirs)
+        {
+            if (f[0] * p[0] + f[1] * p[1] + f[2] * p[2] != 0) continue;
+            for (int j = 1; j <= 16; ++j)
+                for (int order = 0; order < 2; ++order)
+                {
+                    T d = (T) powl (10.0L, -j);
+                    Vec3<T> a ((T) f[0], (T) f[1], (T) f[2]);
+                    Vec3<T> b ((T) f[0] + d * (T) p[0], (T) f[1] + d * (T) p[1], (T) f[2] + d * (T) p[2]);
+                    bool degenerated = (b.x == a.x && b.y == a.y && b.z == a.z);
+                    ++tl.states;
+                    if (degenerated) ++tl.near_par_degenerated; else ++tl.near_par;
+                    int fi[3] = {f[0], f[1], f[2]}, pi[3] = {p[0], p[1], p[2]};
+                    std::string nm = i3 (fi) + "+1e-" + std::to_string (j) + "*" + i3 (pi) + "=" + v3 (b);
+                    std::string in = order == 0 ? "from=" + i3 (fi) + " to=" + nm : "from=" + nm + " to=" + i3 (fi);
+                    // the axis is resolved only while the cross product is well above the rounding of the operands
+                    LD w = order == 0 ? check_pair<T> (tl, a, b, in, ".nearly-parallel", !degenerated && j <= 3) : check_pair<T> (tl, b, a, in, ".nearly-parallel", !degenerated && j <= 3);
+                    mx (tl.w_carry_par, w);
+                }
+        }
+    for (int k : {2, 7, 22, 100})
+        for (int ax = 0; ax < 3; ++ax)
+            for (int ay = 0; ay < 3; ++ay)
+            {
+                if (ax == ay) continue;
+                for (int sg = 0; sg < 4; ++sg)
+                    for (int order = 0; order < 2; ++order)
+                    {
+                        int fa[3] = {0, 0, 0}, fb[3] = {0, 0, 0};
+                        fa[ax] = (sg & 1) ? -k : k;
+                        fb[ax] = fa[ax]; fb[ay] = (sg & 2) ? -1 : 1;
+                        Vec3<T> a ((T) fa[0], (T) fa[1], (T) fa[2]), b ((T) fb[0], (T) fb[1], (T) fb[2]);
+                        ++tl.states; ++tl.cos_family;
+                        std::string in = order == 0 ? "from=" + i3 (fa) + " to=" + i3 (fb) : "from=" + i3 (fb) + " to=" + i3 (fa);
+                        LD w = order == 0 ? check_pair<T> (tl, a, b, in, ".nearly-parallel", true) : check_pair<T> (tl, b, a, in, ".nearly-parallel", true);
+                        mx (tl.w_carry_par, w);
+                    }
+            }
+    // the 64 eps^2 switch between the two-step construction and the antipodal fall-back (audit2 S4)
+    {
+        const LD e  = EPS<T> ();
+        const LD ms[10] = {0.5L, 0.75L, 1 - ldexpl (1, -10), 1 - ldexpl (1, -20), 1, 1 + ldexpl (1, -20), 1 + ldexpl (1, -10), 1.25L, 2, 4};
+        for (auto& f : dirs)
+            for (auto& p : dirs)
+            {
+                if (f[0] * p[0] + f[1] * p[1] + f[2] * p[2] != 0) continue;
+                LD nf = sqrtl ((LD) (f[0] * f[0] + f[1] * f[1] + f[2] * f[2])), np = sqrtl ((LD) (p[0] * p[0] + p[1] * p[1] + p[2] * p[2]));
+                for (LD m : ms)
+                    for (int order = 0; order < 2; ++order)
+                    {
+                        T d = (T) (m * 8 * e * nf / np);
+                        Vec3<T> a ((T) f[0], (T) f[1], (T) f[2]);
+                        Vec3<T> b ((T) -f[0] + d * (T) p[0], (T) -f[1] + d * (T) p[1], (T) -f[2] + d * (T) p[2]);
+                        ++tl.states;
+                        (m < 1 ? tl.sw_below : m == 1 ? tl.sw_at : tl.sw_above)++;
+                        int fi[3] = {f[0], f[1], f[2]}, pi[3] = {p[0], p[1], p[2]};
+                        std::string nm = "-" + i3 (fi) + "+" + vf::fmt ((double) m) + "*8eps*|from|/|p|*" + i3 (pi) + "=" + v3 (b);
+                        std::string in = order == 0 ? "from=" + i3 (fi) + " to=" + nm : "from=" + nm + " to=" + i3 (fi);
+                        LD w = order == 0 ? check_pair<T> (tl, a, b, in, ".at-antipodal-switch", false) : check_pair<T> (tl, b, a, in, ".at-antipodal-switch", false);
+                        mx (tl.w_carry_near, w);
+                    }
+            }
+    }
 }
 
 } // namespace
@@ -186,6 +261,13 @@ void run_setrotation ()
     R ().cls ("pair.opposite-directions-unequal-magnitude", tl.anti_unequal);
     R ().cls ("pair.nearly-antipodal(10^-j)", tl.near_anti);
     R ().cls ("pair.nearly-antipodal-rounded-to-antipodal", tl.near_degenerated);
+    R ().cls ("pair.nearly-parallel(10^-j)", tl.near_par);
+    R ().cls ("pair.nearly-parallel-rounded-to-parallel", tl.near_par_degenerated);
+    R ().cls ("pair.nearly-parallel.cos-0.894..0.99995-integer", tl.cos_family);
+    R ().cls ("pair.antipodal-switch.|f0+t0|^2-below-64eps^2", tl.sw_below);
+    R ().cls ("pair.antipodal-switch.|f0+t0|^2-at-64eps^2", tl.sw_at);
+    R ().cls ("pair.antipodal-switch.|f0+t0|^2-above-64eps^2", tl.sw_above);
+    R ().note_max ("setRotation: worst |image(from^) - to^| in eps on the nearly parallel families (bound 32)", tl.w_carry_par);
     R ().cls ("operand.scaled-1e-20", tl.scaled_small);
     R ().cls ("operand.scaled-1e20", tl.scaled_big);
     R ().note_max ("setRotation: worst |image(from^) - to^| in eps on lattice pairs, all scalings except float*1e20 and opposite-unequal-magnitude (bound 32)", tl.w_carry);
@@ -194,7 +276,7 @@ void run_setrotation ()
     R ().note_max ("setRotation: worst axis deviation * sin(phi) in eps (bound 64)", tl.w_axis);
     R ().sample ("setRotation((1,1,0),(-1,-1,0)): exactly antipodal -> rotation by pi about an axis perpendicular to from");
     R ().sample ("setRotation((1,0,1), -(1,0,1)+1e-9*(0,1,0)): two-step construction");
-    R ().stage_done ("setRotation / rotationMatrix on 26^2 ordered lattice direction pairs x 9 scalings {1,1e-20,1e20}^2, on to=-k*from (9 factors k, both orders) and on to=-from+10^-j*perp, from=-to+10^-j*perp, j=1..16, all perpendicular lattice directions; float and double");
+    R ().stage_done ("setRotation / rotationMatrix on 26^2 ordered lattice direction pairs x 9 scalings {1,1e-20,1e20}^2, on to=-k*from (9 factors k, both orders) and on to=-from+10^-j*perp, from=-to+10^-j*perp, to=from+10^-j*perp (both orders), j=1..16, all perpendicular lattice directions; integer pairs with cosine 0.894..0.99995; to=-from+m*8eps*perp, 10 factors m around the antipodal switch; float and double");
 }
 
 } // namespace c10
